@@ -19,23 +19,13 @@ Definition tbl_dec (t : list (path * Z * list (nat * nat))) (p : path) (v : Z) :
   | None => []
   end.
 
-(* The hasher of these cases.  The model is parametric in H and the comparison is on reported
-   entries and cache events, never on hash strings (pairs are index-keyed), so any hasher whose
-   equality pattern on the items at hand is that of SHA-256 will do; [hexhash] doubles the length
-   of a hash at every nesting level and is recomputed at every use, which makes whole-run cases
-   on the planted inputs take minutes.  A 61-bit polynomial hash printed in decimal is used instead
-   (a collision could only cause a spurious mismatch, which is reported, never hide one silently
-   with non-negligible probability). *)
-Definition fasthash (s : pystr) : pystr :=
-  p_of_N (fold_left (fun acc ch => N.modulo (acc * 1000003 + ch + 1) 2305843009213693951) s 7%N).
-
 Definition sx_log (lg : list (event Z)) : sx :=
   SL (map (fun e => SL [SZ (fst (fst e)); sx_nat (snd (fst e)); SZ (snd e)]) lg).
 
 (* [result; log of every cache event of the run] *)
 Definition run_st (ud : list (pystr * pystr * pystr)) (c : cfg) (rep : bool) (cap : nat) (sched : list bool)
            (pps : list (path * prog Z)) (decs : list (path * Z * list (nat * nat))) (t1 t2 : value) : sx :=
-  let '(r, _, lg) := run_diff_io_st fasthash (tbl_udiff ud) no_paths no_paths c rep Z (sched_of sched)
+  let '(r, _, lg) := run_diff_io_st hexhash (tbl_udiff ud) no_paths no_paths c rep Z (sched_of sched)
                        (tbl_pp pps) (tbl_dec decs) t1 t2 (mkM (empty cap) 0) in
   SL [sx_io r; sx_log lg].
 
@@ -43,5 +33,5 @@ Definition run_st (ud : list (pystr * pystr * pystr)) (c : cfg) (rep : bool) (ca
    entries as [diff_io] (t1's key order) *)
 Definition check_o (ud : list (pystr * pystr * pystr)) (c : cfg) (rep : bool)
            (ps : list (path * list (nat * nat))) (t1 t2 : value) : sx :=
-  sx_bool (sx_eqb (sx_io (diff_io_o fasthash (tbl_udiff ud) no_paths no_paths c rep (tbl_pairs ps) t1 t2 [] []))
-                  (sx_io (diff_io fasthash (tbl_udiff ud) no_paths no_paths c rep (tbl_pairs ps) t1 t2 [] []))).
+  sx_bool (sx_eqb (sx_io (diff_io_o hexhash (tbl_udiff ud) no_paths no_paths c rep (tbl_pairs ps) t1 t2 [] []))
+                  (sx_io (diff_io hexhash (tbl_udiff ud) no_paths no_paths c rep (tbl_pairs ps) t1 t2 [] []))).
